@@ -440,8 +440,8 @@ func runResp(c *corr.Ctx) error {
 
 	// 1. exhaustive small scope
 	alpha := []byte{'*', '$', '0', '1', '-', '\r', '\n', 'a'}
-	maxLen := c.Scale(4, 5)
-	if maxLen > 5 {
+	maxLen := 4
+	if c.Tier == "thorough" {
 		maxLen = 5
 	}
 	var rec func(cur []byte)
